@@ -36,7 +36,7 @@ man = dict(
              dict(name="apalache", path="/verif/check", serves_properties=["C08"],
                   kind_free_text="symbolic check (apalache-mc, length 0) of the SeqRing laws for all positions of the real 65535-ring (specs/ApaSeqRing.tla); one step of the C08 check"),
              dict(name="tlc-extensions", path="/verif/check", serves_properties=[],
-                  kind_free_text="extension specifications beyond the listed properties (DESIGN.md section 8): ./check X01..X11 --tier quick|thorough - TaskPool.tla (thread interleaving at access grain), RateLimit.tla/Lru.tla, Http.tla/HttpConn.tla, Input.tla, HttpClient.tla, ClientLife.tla, Entities.tla/EventQ.tla, Animation.tla, StatsOps.tla/Stats.tla/Trace_Stats.tla (connection statistics), InputDevice.tla, Crypto.tla; same exit-code contract, evidence/X0n.json")],
+                  kind_free_text="extension specifications beyond the listed properties (DESIGN.md section 8): ./check X01..X12 --tier quick|thorough - TaskPool.tla (thread interleaving at access grain), RateLimit.tla/Lru.tla, Http.tla/HttpConn.tla, Input.tla, HttpClient.tla, ClientLife.tla, Entities.tla/EventQ.tla, Animation.tla, StatsOps.tla/Stats.tla/Trace_Stats.tla (connection statistics), InputDevice.tla, Crypto.tla, DummyLink.tla; same exit-code contract, evidence/X0n.json")],
     checks=checks,
     notes=NOTES,
     not_applicable=na)
